@@ -264,7 +264,28 @@ Definition auto_ok (r : string) : bool :=
   existsb (fun p => String.eqb r (fst p) &&
                     (String.eqb (snd p) "" || existsb (String.eqb (snd p)) covering_names)) auto_rules.
 
+(** Round 7.  A covering theorem may rest on a premise that is established by OTHER code.
+    [verify_evidence_perm_invariant] needs one piece of evidence per validator ([NoDup (map ev_val evs)]);
+    that is what QueuedSignedMessage.AddEvidence maintains as long as it replaces earlier evidence by the
+    validator address ALONE (C04's [add_evidence]; [Sys/CalendarProofs.v] [evidence_one_per_validator_lemma]).
+    The translator reads that rule from the source; with any other rule the VerifyEvidence loop is NOT classified. *)
+Definition evidence_rule_expected : list string :=
+  ["init-if-nil"; "range q.Evidence: if same-validator { q.Evidence[i].Proof = data.Proof; return }";
+   "q.Evidence = append(q.Evidence, &data)"]%string.
+
+Fixpoint str_list_eqb (a b : list string) : bool :=
+  match a, b with
+  | [], [] => true
+  | x :: r, y :: r' => String.eqb x y && str_list_eqb r r'
+  | _, _ => false
+  end.
+
+Definition premise_ok (n : string) : bool :=
+  if String.eqb n "verify_evidence_perm_invariant"
+  then str_list_eqb Gen.C08.evidence_replace_rule evidence_rule_expected
+  else true.
+
 Definition classified (s : Gen.C08.site) : bool :=
   auto_ok (Gen.C08.s_auto s) ||
   prefix_of "benign:" (Gen.C08.s_class s) ||
-  existsb (fun n => String.eqb (Gen.C08.s_class s) ("lemma:" ++ n)) covering_names.
+  existsb (fun n => String.eqb (Gen.C08.s_class s) ("lemma:" ++ n) && premise_ok n) covering_names.
